@@ -162,6 +162,63 @@ pub fn minimiser_runs(seq: &[u8], w: usize, m: usize) -> Vec<(u64, usize, usize)
     out
 }
 
+/// The same runs as `minimiser_runs`, in O(n) (sliding-window minimum over the canonical m-mers with a
+/// monotone deque; ambiguity via a prefix count): for windows of tens of thousands of bases, where the brute
+/// force is out of reach.  `selfcheck` compares the two on small cases.
+pub fn minimiser_runs_fast(seq: &[u8], w: usize, m: usize) -> Vec<(u64, usize, usize)> {
+    let mut out: Vec<(u64, usize, usize)> = Vec::new();
+    if m == 0 || w < m || seq.len() < w {
+        return out;
+    }
+    let n = seq.len();
+    // amb[i] = number of ambiguous bytes in seq[..i]
+    let mut amb = vec![0u32; n + 1];
+    for i in 0..n {
+        amb[i + 1] = amb[i] + if base_digit(seq[i]).is_some() { 0 } else { 1 };
+    }
+    let clean = |a: usize, b: usize| amb[b] == amb[a];
+    let mm: Vec<Option<u64>> = (0..=n - m)
+        .map(|i| if clean(i, i + m) { encode(&seq[i..i + m]).map(|c| canonical(c as u64, m)) } else { None })
+        .collect();
+    let span = w - m + 1; // m-mers per window
+    let mut dq: std::collections::VecDeque<usize> = std::collections::VecDeque::new();
+    let mut prev_valid = false;
+    for j in 0..mm.len() {
+        // push m-mer j (None = +infinity: never a minimum of a clean window)
+        let vj = mm[j].unwrap_or(u64::MAX);
+        while let Some(&b) = dq.back() {
+            if mm[b].unwrap_or(u64::MAX) >= vj {
+                dq.pop_back();
+            } else {
+                break;
+            }
+        }
+        dq.push_back(j);
+        if j + 1 < span {
+            continue;
+        }
+        let s = j + 1 - span; // window start
+        while *dq.front().unwrap() < s {
+            dq.pop_front();
+        }
+        if !clean(s, s + w) {
+            prev_valid = false;
+            continue;
+        }
+        let mn = mm[*dq.front().unwrap()].expect("clean window has clean m-mers");
+        if prev_valid {
+            let last = out.last_mut().unwrap();
+            if last.0 == mn {
+                last.2 = s + w;
+                continue;
+            }
+        }
+        out.push((mn, s, s + w));
+        prev_valid = true;
+    }
+    out
+}
+
 // ------------------------------------------------------------------------------------------
 // Exact chaos-game arithmetic: coordinates are N / 2^d with N in u128.
 
